@@ -44,7 +44,7 @@ _max = builtins.max
 
 class _BytesMeta(type):
     def __instancecheck__(cls, x):
-        return isinstance(x, _bytes) or isinstance(x, SymBytes)
+        return isinstance(x, _bytes) or isinstance(x, SymBytes) or isinstance(x, symdata.SymLenBytes)
 
     def __subclasscheck__(cls, sub):
         return issubclass(sub, _bytes) or issubclass(sub, SymBytes)
@@ -62,6 +62,10 @@ class sx_bytes(metaclass=_BytesMeta):
             return _bytes(x, *a, **k)
         if isinstance(x, SymSeq):
             return mk_bytes(x._get())
+        if isinstance(x, symdata.SymLenBytes):
+            return x
+        if isinstance(x, symdata.SymLenByteArray):
+            return symdata.SymLenBytes(x.symlen, x.src, x.lanes, x.prefix)
         if isinstance(x, _int) and not isinstance(x, bool):
             return _bytes(x)
         if isinstance(x, (_bytes, _bytearray, _memoryview)):
@@ -77,7 +81,7 @@ class sx_bytes(metaclass=_BytesMeta):
 
 class _BAMeta(type):
     def __instancecheck__(cls, x):
-        return isinstance(x, (_bytearray, SymByteArray))
+        return isinstance(x, (_bytearray, SymByteArray, symdata.SymLenByteArray))
 
 
 class sx_bytearray(metaclass=_BAMeta):
@@ -90,6 +94,10 @@ class sx_bytearray(metaclass=_BAMeta):
             return SymByteArray([0] * x)
         if isinstance(x, SymSeq):
             return SymByteArray(x._get())
+        if isinstance(x, symdata.SymLenBase):
+            if isinstance(x, (symdata.SymLenBytes, symdata.SymLenByteArray)):
+                return symdata.SymLenByteArray(x.symlen, x.src, x.lanes, x.prefix)
+            raise EngineLimit('bytearray() of %s' % type(x).__name__)
         if isinstance(x, (SymStr, _str)):
             raise TypeError('string argument without an encoding')
         return SymByteArray(list(x))
@@ -175,6 +183,16 @@ def sx_max(*a, **k):
     return _max(*a, **k)
 
 
+_len = builtins.len
+
+
+def sx_len(x):
+    n = getattr(x, '_sx_symlen', None)
+    if n is not None:
+        return n
+    return _len(x)
+
+
 def sx_bool(x=False):
     return builtins.bool(x)
 
@@ -224,6 +242,7 @@ BUILTIN_SHIMS = {
     'max': sx_max,
     'ord': sx_ord,
     'chr': sx_chr,
+    'len': sx_len,
 }
 
 # library objects replaced *by identity* after a module body has run (import statements bind the
@@ -610,6 +629,11 @@ class SX(object):
                 out.extend(sep)
             if isinstance(p, (_str, SymStr)):
                 raise TypeError('sequence item %d: expected a bytes-like object, str found' % i)
+            if isinstance(p, symdata.SymLenBase):
+                if not isinstance(p, (symdata.SymLenBytes, symdata.SymLenByteArray)) or i != len(parts) - 1 \
+                        or isinstance(sep, _bytearray):
+                    raise EngineLimit('join with a symbolic-length part that is not the last one')
+                return symdata.SymLenBytes(p.symlen, p.src, p.lanes, out + list(getattr(p, 'prefix', ())))
             out.extend(items_of(p))
         if isinstance(sep, _bytearray):
             return SymByteArray(out)
@@ -747,6 +771,17 @@ class Rewriter(ast.NodeTransformer):
 
 
 
+_CODE_CACHE = {}
+
+
+def reload_fresh():
+    """forget the imported (instrumented) package: the next import executes the module bodies again, so module- and
+    class-level state cannot be carried from one explored path to the next"""
+    for m in list(sys.modules):
+        if m == 'lomond' or m.startswith('lomond.'):
+            del sys.modules[m]
+
+
 class _Loader(importlib.abc.Loader):
     def __init__(self, path):
         self.path = path
@@ -755,11 +790,13 @@ class _Loader(importlib.abc.Loader):
         return None
 
     def exec_module(self, module):
-        with open(self.path) as fh:
-            src = fh.read()
-        tree = Rewriter().visit(ast.parse(src, self.path))
-        ast.fix_missing_locations(tree)
-        code = compile(tree, self.path, 'exec')
+        code = _CODE_CACHE.get(self.path)
+        if code is None:
+            with open(self.path) as fh:
+                src = fh.read()
+            tree = Rewriter().visit(ast.parse(src, self.path))
+            ast.fix_missing_locations(tree)
+            code = _CODE_CACHE[self.path] = compile(tree, self.path, 'exec')
         if not PASSTHROUGH:
             module.__dict__.update(BUILTIN_SHIMS)
         exec(code, module.__dict__)
